@@ -17,10 +17,21 @@ func TestReserve(t *testing.T) {
 		c.Close()
 		t.Fatal("connect succeeded on a reserved, not listening port")
 	}
-	// nobody else can listen on it
-	if l, err := net.Listen("tcp", p.Addr); err == nil {
-		l.Close()
-		t.Fatal("a plain listener could bind the reserved port")
+	// below the kernel's ephemeral range, and a second reservation never gets the same port
+	if p.Port < 10000 || p.Port >= 32000 {
+		t.Fatalf("port %d", p.Port)
+	}
+	seen := map[int]bool{p.Port: true}
+	for i := 0; i < 2000; i++ {
+		q, err := Reserve()
+		if err != nil {
+			t.Fatal(err)
+		}
+		if seen[q.Port] {
+			t.Fatalf("port %d reserved twice", q.Port)
+		}
+		seen[q.Port] = true
+		defer q.Release()
 	}
 	for i := 0; i < 3; i++ {
 		l, err := p.Listen()
